@@ -18,16 +18,19 @@ C07.e     (B) support change: update compares the set of Pauli words with the on
 from __future__ import annotations
 
 import ast
+import math
 from typing import Dict, List, Optional, Set, Tuple
 
 import sympy as sp
 
 from ..cfg import CFG
+from ..consteval import Folder, Raised, Rec, Undecidable, make_gate
 from ..index import AnalysisError, ClassInfo, FunctionInfo, Index, full, norm, own_nodes
 from ..report import Report
 from .. import symx
 
 ANSATZ = "tangelo/toolboxes/ansatz_generator/ansatz.py"
+TABLE_CLASSES = ("UCCSD", "UpCCGSD", "QCC")       # classes that keep a word -> gate index table
 
 
 def run(idx: Index, rep: Report, tier: str):
@@ -47,6 +50,8 @@ def run(idx: Index, rep: Report, tier: str):
             check_angles(idx, rep, c)
             check_support_change(idx, rep, c)
         check_offsets(idx, rep, c)
+        if kind == "B" and c.name in TABLE_CLASSES:
+            check_update_equals_rebuild(idx, rep, c)
 
 
 # ---------------------------------------------------------------------------------------------------
@@ -307,3 +312,176 @@ def check_offsets(idx: Index, rep: Report, c: ClassInfo):
                            what="the start offset of block b+1 is the offset of block b plus the size of block b",
                            reason=f"{arr}[{lv}+1] is set from the block size alone, but {arr}[{lv}] is added to gate indices of a single flat gate list: from the "
                                   f"third block on, updates address the wrong gates")
+
+
+# ---------------------------------------------------------------------------------------------------
+# update == rebuild, folded on stand-in operators
+class _CircModel:
+    """stand-in for a linq Circuit as far as the ansatz classes use one: a gate list whose gates are copied on the way in (as
+    Circuit.add_gate does), the variational gates as a view on that list, `size`, and `+` that builds a new circuit"""
+    _sa_model = True
+
+    def __init__(self, gates=None, n_qubits=None, **_kw):
+        import copy
+        self._gates = [copy.deepcopy(g) for g in (gates or [])]
+        self._variational_gates = [g for g in self._gates if g.fields.get("is_variational")]
+        self.size = len(self._gates)
+
+    def __add__(self, o):
+        return _CircModel(self._gates + o._gates)
+
+    def signature(self):
+        return [(g.fields["name"], tuple(g.fields["target"]) if isinstance(g.fields["target"], list) else g.fields["target"],
+                 tuple(g.fields["control"]) if isinstance(g.fields["control"], list) else g.fields["control"],
+                 g.fields["parameter"], bool(g.fields.get("is_variational"))) for g in self._gates]
+
+
+class _OpModel:
+    _sa_model = True
+
+    def __init__(self, terms):
+        self.terms = dict(terms)
+
+
+WORDS = [((0, "X"), (1, "Y")), ((0, "Y"), (1, "X"), (2, "Z")), ((2, "X"),), ((1, "Z"), (2, "Y"), (3, "X"), (0, "Z")), ((3, "Y"), (0, "X")), ((1, "X"),),
+         ((0, "Z"), (3, "Z"), (2, "X")), ((2, "Y"), (3, "Y"))]
+
+
+def _stand_in_operator(params, block: int):
+    """a qubit operator in the style the ansatz generators deliver: two words per parameter, coefficients proportional to the parameter (one of
+    them negative), zero coefficients compressed away; `block` rotates the word set so that different blocks do not share their first words"""
+    terms = {}
+    for j, th in enumerate(params):
+        if th == 0:
+            continue
+        wa = WORDS[(2 * j + block) % len(WORDS)]
+        wb = WORDS[(2 * j + 1 + block) % len(WORDS)]
+        terms[wa + ((4 + j, "Z"),)] = terms.get(wa + ((4 + j, "Z"),), 0) + th
+        terms[wb + ((4 + j, "X"),)] = terms.get(wb + ((4 + j, "X"),), 0) - th / 2
+    return _OpModel(terms)
+
+
+class _AnsatzModel:
+    """stand-in for `self` inside build_circuit / update_var_params of the classes that keep an index table"""
+    _sa_model = True
+
+    def __init__(self, kind: str, n_blocks: int, per_block: int, with_reference: bool):
+        self.kind, self.k, self.per_block = kind, n_blocks, per_block
+        self.n_var_params = n_blocks * per_block
+        self.var_params = None
+        self.spin = 0
+        self.molecule = Rec("Molecule", {"uhf": False})
+        self.n_qubits = 0                     # QCC slices the vector at 2 * n_qubits: no mean-field block in the stand-in
+        self.n_qmf_params = 0
+        self.n_qcc_params = self.n_var_params
+        self.dis = "DIS"
+        self.qmf_circuit = None
+        self.qcc_circuit = None
+        self.circuit = None
+        self.pauli_to_angles_mapping = {}
+        self.with_reference = with_reference
+
+    def set_var_params(self, var_params=None):
+        if var_params is None:
+            var_params = [0.] * self.n_var_params
+        if len(var_params) != self.n_var_params:
+            raise Raised("ValueError", None)
+        self.var_params = [float(x) for x in var_params]
+        return self.var_params
+
+    def prepare_reference_state(self):
+        return _CircModel([make_gate(["X", [0]], {}), make_gate(["X", [1]], {})] if self.with_reference else [])
+
+    def _get_qcc_generators(self):
+        return None
+
+    def _block(self, b):
+        return self.var_params[b * self.per_block:(b + 1) * self.per_block]
+
+    def _get_qubit_operator(self, current_k):
+        return _stand_in_operator(self._block(current_k), current_k)
+
+    def _get_singlet_qubit_operator(self):
+        return _stand_in_operator(self.var_params, 0)
+    _get_openshell_qubit_operator = _get_singlet_qubit_operator
+
+
+def check_update_equals_rebuild(idx: Index, rep: Report, c: ClassInfo):
+    """build_circuit and update_var_params of `c` folded on a stand-in `self` whose qubit operator is a checker-chosen function of the parameter
+    vector (two words per parameter, zero parameters drop their words).  After build(v0), update(v1), ... the circuit must equal, gate by
+    gate, the one a fresh object builds from the last vector - for dense vectors, vectors with zeros (words disappear / re-appear), several
+    blocks of different sizes, with and without a reference circuit."""
+    rule = "K8.update-equals-rebuild"
+    from ..consteval import make_gate as _mg
+    from ..rules.circuitsem import make_folder
+    bld, upd = idx.find_method(c, "build_circuit"), idx.find_method(c, "update_var_params")
+    multi = c.name == "UpCCGSD"
+    n_blocks, per_block = (3, 2) if multi else (1, 4)
+    seqs = [
+        [[.3, -.7, .2, .5, -.1, .9], [.1, .2, -.3, .4, .5, -.6]],                                # dense -> dense
+        [[.3, -.7, .2, .5, -.1, .9], [.1, 0., -.3, .4, .5, -.6]],                                # a word set shrinks
+        [[.3, 0., .2, .5, -.1, .9], [.1, 0., -.3, .4, .5, -.6], [.2, 0., .3, -.4, .6, .7]],        # zero confined to the first block, kept
+        [[.3, -.7, 0., .5, -.1, .9], [.1, .2, 0., .4, .5, -.6]],                                 # zero confined to the middle block, kept
+        [[.3, 0., .2, .5, -.1, .9], [.1, .25, -.3, .4, .5, -.6]],                                # a word set grows
+        [[0., 0., 0., 0., 0., 0.], [.1, .2, -.3, .4, .5, -.6]],                                  # from the reference state
+        [[.3, -.7, .2, .5, -.1, .9], [0., 0., 0., 0., 0., 0.]],                                  # back to the reference state
+    ]
+    from ..rules import circuitsem as _cs
+    ctors = {"Circuit": lambda a, k: _CircModel(*a, **k), "build_qcc_qubit_op": lambda a, k: _stand_in_operator(a[1], 0),
+             ("Gate", "inverse"): _cs.gate_inverse_ctor(idx)}
+    n = 0
+    for with_ref in (False, True):
+        for seq in seqs:
+            seq = [v[:n_blocks * per_block] for v in seq]
+            try:
+                a = _AnsatzModel(c.name, n_blocks, per_block, with_ref)
+                fo = make_folder(idx, bld.module.relpath, ctors=ctors)
+                fo.env["np.pi"] = math.pi
+                fo.run_function(bld.node, {"self": a, "var_params": list(seq[0])})
+                for v in seq[1:]:
+                    fo = make_folder(idx, upd.module.relpath, ctors=ctors)
+                    fo.env["np.pi"] = math.pi
+                    # the update may call self.build_circuit: bind it to the folded method
+                    a.build_circuit = lambda vp=None, a=a: _fold_build(idx, bld, a, vp, ctors)
+                    fo.run_function(upd.node, {"self": a, "var_params": list(v)})
+                b = _AnsatzModel(c.name, n_blocks, per_block, with_ref)
+                fo = make_folder(idx, bld.module.relpath, ctors=ctors)
+                fo.env["np.pi"] = math.pi
+                fo.run_function(bld.node, {"self": b, "var_params": list(seq[-1])})
+            except Undecidable as e:
+                raise AnalysisError(f"{c.name}: build/update not foldable on the stand-in: {e}")
+            except Raised as e:
+                n += 1
+                rep.violation(rule, upd, upd.node, text=f"{c.name}: build{seq[0]} then update{seq[1:]}, reference={'yes' if with_ref else 'no'}",
+                              what="updating the parameters gives the circuit a fresh build gives", reason=f"raises {e.exc_type} (e.g. an index beyond the variational gates)")
+                continue
+            sa_, sb_ = a.circuit.signature(), b.circuit.signature()
+            same = len(sa_) == len(sb_) and all(x[:3] == y[:3] and x[4] == y[4] and _same_angle(x[3], y[3]) for x, y in zip(sa_, sb_))
+            n += 1
+            diff = next((f"gate {i}: {x} vs {y}" for i, (x, y) in enumerate(zip(sa_, sb_)) if not (x[:3] == y[:3] and _same_angle(x[3], y[3]))), f"{len(sa_)} vs {len(sb_)} gates")
+            rep.decide(same, rule, upd, upd.node, text=f"{c.name}: build{seq[0]} then update{seq[1:]}, reference={'yes' if with_ref else 'no'}",
+                       what="after any sequence of updates the circuit equals, gate by gate, the circuit a fresh object builds from the last vector",
+                       reason=f"updated circuit differs from a rebuilt one at {diff}")
+    rep.floor(f"{c.name}: update-vs-rebuild sequences", n, 10)
+
+
+def _fold_build(idx, bld, a, vp, ctors):
+    from ..rules.circuitsem import make_folder
+    fo = make_folder(idx, bld.module.relpath, ctors=ctors)
+    fo.env["np.pi"] = math.pi
+    return fo.run_function(bld.node, {"self": a, "var_params": vp})
+
+
+def _same_angle(x, y) -> bool:
+    def num(v):
+        if isinstance(v, bool) or isinstance(v, str) or v is None:
+            return None
+        if isinstance(v, (int, float)):
+            return float(v)
+        if isinstance(v, sp.Basic) and not v.free_symbols:
+            return float(sp.N(v, 30))
+        return None
+    a, b = num(x), num(y)
+    if a is None or b is None:
+        return x == y
+    return math.isclose(a, b, rel_tol=1e-12, abs_tol=1e-12)
